@@ -1,0 +1,73 @@
+//go:build verif
+
+/*
+ Licensed to the Apache Software Foundation (ASF) under one
+ or more contributor license agreements.  See the NOTICE file
+ distributed with this work for additional information
+ regarding copyright ownership.  The ASF licenses this file
+ to you under the Apache License, Version 2.0 (the
+ "License"); you may not use this file except in compliance
+ with the License.  You may obtain a copy of the License at
+
+     http://www.apache.org/licenses/LICENSE-2.0
+
+ Unless required by applicable law or agreed to in writing, software
+ distributed under the License is distributed on an "AS IS" BASIS,
+ WITHOUT WARRANTIES OR CONDITIONS OF ANY KIND, either express or implied.
+ See the License for the specific language governing permissions and
+ limitations under the License.
+*/
+
+package events
+
+import (
+	"github.com/apache/yunikorn-scheduler-interface/lib/go/si"
+)
+
+// Verification hooks, only compiled with the "verif" build tag.
+
+// VerifRing exposes the unexported ring buffer.
+type VerifRing struct {
+	r *eventRingBuffer
+}
+
+func VerifNewRing(capacity uint64) *VerifRing {
+	return &VerifRing{r: newEventRingBuffer(capacity)}
+}
+
+func (v *VerifRing) Add(e *si.EventRecord) { v.r.Add(e) }
+
+func (v *VerifRing) GetEventsFromID(id, count uint64) ([]*si.EventRecord, uint64, uint64) {
+	return v.r.GetEventsFromID(id, count)
+}
+
+func (v *VerifRing) GetRecentEvents(count uint64) []*si.EventRecord {
+	return v.r.GetRecentEvents(count)
+}
+
+func (v *VerifRing) Resize(newSize uint64) { v.r.Resize(newSize) }
+
+func (v *VerifRing) GetLastEventID() uint64 { return v.r.GetLastEventID() }
+
+// VerifStreaming creates an event streaming object on top of the ring.
+func (v *VerifRing) VerifStreaming() *EventStreaming { return NewEventStreaming(v.r) }
+
+// VerifNewStore exposes the unexported event store constructor.
+func VerifNewStore(size uint64) *EventStore { return newEventStore(size) }
+
+// VerifResize resizes the ring buffer and store of the event system synchronously.
+func (ec *EventSystemImpl) VerifResize(ring, store uint64) {
+	if store > 0 {
+		ec.Store.SetStoreSize(store)
+	}
+	if ring > 0 {
+		ec.eventBuffer.Resize(ring)
+	}
+}
+
+// VerifRingState returns the lowest and the last id of the ring buffer of the event system.
+func (ec *EventSystemImpl) VerifRingState() (uint64, uint64, uint64) {
+	ec.eventBuffer.RLock()
+	defer ec.eventBuffer.RUnlock()
+	return ec.eventBuffer.lowestId, ec.eventBuffer.id, ec.eventBuffer.capacity
+}
